@@ -330,12 +330,16 @@ async def xfer(case, r: R):
         if len(v.channels) != 1:
             r.bad('harness/rfcomm-channel-not-found', f'dev{dev}: RFCOMM L2CAP channels seen on the wire: {v.channels}')
     # drain() of a quiet DLC must finish
-    for cd, sd in pairs:
-        for end in (cd, sd):
+    for j, (cd, sd) in enumerate(pairs):
+        for d, end in (('c2s', cd), ('s2c', sd)):
+            r.ev('drain_checks')
             try:
                 await vloop.vwait(end.drain(), 30)
             except vloop.Hang:
-                r.bad('rfcomm/progress/drain-hang', f'drain() pending with everything delivered: {end}')
+                last = plans[j][d][-1] if plans[j][d] else None
+                r.bad('rfcomm/progress/drain-hang' + ('/after-empty-write' if last == 0 else ''),
+                      f'drain() pending with everything delivered (tx_buffer={len(end.tx_buffer)} octets, last write '
+                      f'{last} octets, writes {plans[j][d][-6:]}): {end}')
     for where, e in rg.exceptions:
         r.bad('rfcomm/exception-in-stack', f'{where}: {e}')
     nontrivial = any(d.zero_moments or d.at_limit or d.credit_only_frames for v in views for d in v.dlcs)
@@ -435,10 +439,9 @@ async def life(case, r: R):
             return
         await rg.quiesce()
         compare_state(r, s, f'DLC {chans[j]} closed by the {by} (steps {steps})', f'after-dlc-close/by-{by}')
-        r.ev('oracle_evals')
-        ev = sorted(closed_events.get(j, []))
-        if ev != ['initiator', 'responder']:
-            r.bad(f'state/close-event-missing/by-{by}', f'"close" emitted on {ev} only after the {by} closed DLC {chans[j]}')
+        # informational (the statement speaks of states, not of events)
+        r.ev('close_events_on_both_ends' if sorted(closed_events.get(j, [])) == ['initiator', 'responder']
+             else 'close_event_on_one_end_only')
         # the DLCs still open keep working
         for other in order[pos + 1:]:
             if not await exchange(other, 100 + 10 * other):
@@ -488,7 +491,518 @@ async def life(case, r: R):
     r.sample = {'kind': 'life', 'dlcs': ndlc, 'channels': chans, 'close_steps': steps, 'reopen': reopen, **geo}
 
 
-KINDS = {'xfer': xfer, 'life': life}
+# =============================================================================
+# HFP: tables written down from the Hands-Free Profile (not taken from bumble.hfp)
+# =============================================================================
+HF_BITS = {'EC_NR': 0x001, 'THREE_WAY': 0x002, 'CLI': 0x004, 'VR': 0x008, 'VOLUME': 0x010, 'ECS': 0x020, 'ECC': 0x040,
+           'CODEC': 0x080, 'HF_IND': 0x100, 'ESCO_S4': 0x200, 'EVRS': 0x400, 'VR_TEXT': 0x800}
+AG_BITS = {'THREE_WAY': 0x001, 'EC_NR': 0x002, 'VR': 0x004, 'INBAND': 0x008, 'VOICE_TAG': 0x010, 'REJECT': 0x020,
+           'ECS': 0x040, 'ECC': 0x080, 'EXT_ERR': 0x100, 'CODEC': 0x200, 'HF_IND': 0x400, 'ESCO_S4': 0x800,
+           'EVRS': 0x1000, 'VR_TEXT': 0x2000}
+AG_INDICATORS = ['service', 'call', 'callsetup', 'callheld', 'signal', 'roam', 'battchg']
+IND_RANGES = {'service': [0, 1], 'call': [0, 1], 'callsetup': [0, 1, 2, 3], 'callheld': [0, 1, 2],
+              'signal': [0, 1, 2, 3, 4, 5], 'roam': [0, 1], 'battchg': [0, 1, 2, 3, 4, 5]}
+CHLD_OPS = ['0', '1', '1x', '2', '2x', '3', '4']
+FINAL_CODES = ('OK', 'ERROR', 'NO CARRIER', 'BUSY', 'NO ANSWER', 'DELAYED', 'BLACKLISTED')
+
+
+async def guarded(aw):
+    """Exceptions of the awaited call (asyncio.TimeoutError included) come back as values, so that
+    vwait's own expiry is the only thing that reads as a hang."""
+    try:
+        return 'ok', await aw
+    except Exception as e:      # noqa: BLE001 — the code under test decides what it raises
+        return 'raised', e
+
+
+def is_final(text: str) -> bool:
+    t = text.strip()
+    return t in FINAL_CODES or t.startswith('+CME ERROR')
+
+
+class AtMonitor:
+    """Order-preserving record of what crossed the AG's DLC: command lines completed by the
+    bytes handed to the AG, result lines in the bytes the AG wrote."""
+
+    def __init__(self):
+        self.events = []          # ('cmd', [lines]) | ('rsp', text)
+        self.rxbuf = bytearray()
+        self.txbuf = bytearray()
+
+    def rx(self, data):
+        self.rxbuf += data
+        lines = []
+        while (i := self.rxbuf.find(b'\r')) >= 0:
+            line = bytes(self.rxbuf[:i])
+            del self.rxbuf[:i + 1]
+            if line.strip():
+                lines.append(line.decode('utf-8', 'replace'))
+        if lines:
+            self.events.append(('cmd', lines))
+
+    def tx(self, data):
+        if isinstance(data, str):
+            data = data.encode()
+        self.txbuf += data
+        while True:
+            h = self.txbuf.find(b'\r\n')
+            if h < 0:
+                return
+            t = self.txbuf.find(b'\r\n', h + 2)
+            if t < 0:
+                return
+            self.events.append(('rsp', bytes(self.txbuf[h + 2:t]).decode('utf-8', 'replace')))
+            del self.txbuf[:t + 2]
+
+    def groups(self):
+        """[(command lines, [result lines until the next command group])]"""
+        out = []
+        for kind, v in self.events:
+            if kind == 'cmd':
+                out.append((v, []))
+            elif out:
+                out[-1][1].append(v)
+            else:
+                out.append(([], [v]))
+        return out
+
+
+def tap_ag(ag, mon: AtMonitor):
+    dlc = ag.dlc
+    inner_sink = dlc.sink
+    inner_write = dlc.write
+
+    def sink(data):
+        mon.rx(bytes(data))
+        inner_sink(data)
+
+    def write(data):
+        mon.tx(data)
+        inner_write(data)
+
+    dlc.sink = sink
+    dlc.write = write
+
+
+def subset(rng, names, style=None):
+    style = style or rng.choice(['none', 'all', 'random', 'random', 'one'])
+    if style == 'none':
+        return []
+    if style == 'all':
+        return list(names)
+    if style == 'one':
+        return [rng.choice(names)]
+    return [n for n in names if rng.random() < 0.5]
+
+
+def gen_hfp(rng, idx):
+    bits = idx % 64
+    hf_codec, ag_codec, hf_3w, ag_3w, hf_ind, ag_ind = [(bits >> i) & 1 for i in range(6)]
+    hf_names = subset(rng, [n for n in HF_BITS if n not in ('CODEC', 'THREE_WAY', 'HF_IND')])
+    ag_names = subset(rng, [n for n in AG_BITS if n not in ('CODEC', 'THREE_WAY', 'HF_IND')])
+    hf_names += [n for n, b in (('CODEC', hf_codec), ('THREE_WAY', hf_3w), ('HF_IND', hf_ind)) if b]
+    ag_names += [n for n, b in (('CODEC', ag_codec), ('THREE_WAY', ag_3w), ('HF_IND', ag_ind)) if b]
+    rng.shuffle(hf_names)
+    rng.shuffle(ag_names)
+    style = rng.choice(['one', 'all', 'all', 'random', 'shuffled'])
+    if style == 'one':
+        inds = [rng.choice(AG_INDICATORS)]
+    elif style == 'all':
+        inds = list(AG_INDICATORS)
+    else:
+        inds = [n for n in AG_INDICATORS if rng.random() < 0.6] or ['call']
+        if style == 'shuffled':
+            rng.shuffle(inds)
+    ind_specs = []
+    for n in inds:
+        vs = rng.choice(['std', 'std', 'sparse', 'single', 'offset'])
+        values = {'std': IND_RANGES[n], 'sparse': [0, 2, 5], 'single': [rng.choice([0, 1, 3])],
+                  'offset': [1, 2, 3]}[vs]
+        ind_specs.append((n, sorted(values), rng.choice(values)))
+    hfi = rng.choice([[], [1], [2], [1, 2], [2, 1]])
+    agi = rng.choice([[], [1], [2], [1, 2], [2, 1]])
+    codecs = rng.choice([[], [1], [2], [1, 2], [1, 2, 3], [2, 1]])
+    ag_codecs = rng.choice([[], [1], [1, 2], [1, 2, 3]])
+    chld = rng.choice([[], ['1'], ['2'], list(CHLD_OPS), ['1', '2'], subset(rng, CHLD_OPS, 'random'),
+                       list(reversed(CHLD_OPS))])
+    return {'hf_features': hf_names, 'ag_features': ag_names, 'ag_indicators': ind_specs, 'hf_indicators': hfi,
+            'ag_hf_indicators': agi, 'hf_codecs': codecs, 'ag_codecs': ag_codecs, 'chld': chld}
+
+
+def build_hfp_configs(cfg):
+    from bumble import hfp
+    hf_conf = hfp.HfConfiguration(
+        supported_hf_features=[hfp.HfFeature(HF_BITS[n]) for n in cfg['hf_features']],
+        supported_hf_indicators=[hfp.HfIndicator(i) for i in cfg['hf_indicators']],
+        supported_audio_codecs=[hfp.AudioCodec(c) for c in cfg['hf_codecs']])
+    ag_conf = hfp.AgConfiguration(
+        supported_ag_features=[hfp.AgFeature(AG_BITS[n]) for n in cfg['ag_features']],
+        supported_ag_indicators=[hfp.AgIndicatorState(indicator=hfp.AgIndicator(n), supported_values=set(v),
+                                                      current_status=cur) for n, v, cur in cfg['ag_indicators']],
+        supported_hf_indicators=[hfp.HfIndicator(i) for i in cfg['ag_hf_indicators']],
+        supported_ag_call_hold_operations=[hfp.CallHoldOperation(o) for o in cfg['chld']],
+        supported_audio_codecs=[hfp.AudioCodec(c) for c in cfg['ag_codecs']])
+    return hf_conf, ag_conf
+
+
+async def hfp_link(case, rng, r):
+    """rig + RFCOMM DLC pair with random link parameters; returns (rg, session, client dlc, server dlc, info)."""
+    rg, ca, cb, geo = await make_rig(case, rng)
+    cm, sm = rng.choice(L2_MTUS), rng.choice(L2_MTUS)
+    s = Session(rg, ca, cm, sm)
+    p = (rng.choice(FRAME_SIZES), rng.randint(1, 7), rng.choice(FRAME_SIZES), rng.randint(1, 7))
+    ch = rng.randint(1, 30)
+    s.listen(ch, p[2], p[3])
+    await s.start()
+    cd, sd = await s.open(ch, p[0], p[1])
+    return rg, s, cd, sd, {'l2cap_mtu': (cm, sm), 'n1c_kc_n1s_ks': p, **geo}
+
+
+async def slc(case, r: R):
+    from bumble import hfp
+    rng = random.Random(case['seed'] ^ 0x51C)
+    cfg = gen_hfp(rng, case['idx'])
+    rg, s, cd, sd, info = await hfp_link(case, rng, r)
+    hf_conf, ag_conf = build_hfp_configs(cfg)
+    hf_on_client = rng.random() < 0.6
+    hf = hfp.HfProtocol(cd if hf_on_client else sd, hf_conf)
+    ag = hfp.AgProtocol(sd if hf_on_client else cd, ag_conf)
+    mon = AtMonitor()
+    tap_ag(ag, mon)
+    slc_events = []
+    ag.on('slc_complete', lambda: slc_events.append(1))
+    exp_hf = sum(HF_BITS[n] for n in cfg['hf_features'])
+    exp_ag = sum(AG_BITS[n] for n in cfg['ag_features'])
+    both = lambda n: n in cfg['hf_features'] and n in cfg['ag_features']      # noqa: E731
+    tag = ''.join(k for k, n in (('c', 'CODEC'), ('t', 'THREE_WAY'), ('i', 'HF_IND')) if both(n)) or '-'
+    r.ev('slc_runs')
+    r.ev(f'slc_branch_{tag}')
+    outcome = 'ok'
+    try:
+        how, val = await vloop.vwait(guarded(hf.initiate_slc()))
+    except vloop.Hang:
+        r.bad('slc/hang', f'initiate_slc pending at T_v; cfg={cfg}')
+        return
+    if how == 'raised':
+        outcome = f'{type(val).__name__}: {val}'
+    await rg.quiesce()
+    detail = f'cfg={cfg} link={info} hf_on_client={hf_on_client}'
+    r.ev('oracle_evals')
+    if outcome != 'ok':
+        why = []
+        if both('THREE_WAY') and not cfg['chld']:
+            why.append('empty-call-hold-set')
+        if both('HF_IND') and not cfg['ag_hf_indicators']:
+            why.append('empty-ag-hf-indicator-list')
+        last = [x for g in mon.groups() for x in g[0]][-1:] or ['?']
+        r.bad('slc/raised/' + ('+'.join(why) if why else 'other'),
+              f'initiate_slc raised {outcome} (last command the AG saw: {last}); {detail}')
+    else:
+        def agree(cond, key, text):
+            r.ev('slc_agreement_checks')
+            r.ev('oracle_evals')
+            if not cond:
+                r.bad(key, f'{text}; {detail}')
+        agree(hf.supported_ag_features == exp_ag and ag.supported_ag_features == exp_ag, 'slc/disagree/ag-features',
+              f'AG feature word: configured {exp_ag:#x}, AG {ag.supported_ag_features:#x}, HF learnt {hf.supported_ag_features:#x}')
+        agree(hf.supported_hf_features == exp_hf and ag.supported_hf_features == exp_hf, 'slc/disagree/hf-features',
+              f'HF feature word: configured {exp_hf:#x}, HF {hf.supported_hf_features:#x}, AG learnt {ag.supported_hf_features:#x}')
+        names = [n for n, _v, _c in cfg['ag_indicators']]
+        agree([x.indicator.value for x in hf.ag_indicators] == names and
+              [x.indicator.value for x in ag.ag_indicators] == names, 'slc/disagree/ag-indicator-list',
+              f'AG indicators configured {names}, HF holds {[x.indicator.value for x in hf.ag_indicators]}')
+        if [x.indicator.value for x in hf.ag_indicators] == names:
+            cur = [c for _n, _v, c in cfg['ag_indicators']]
+            agree([x.current_status for x in hf.ag_indicators] == cur and
+                  [x.current_status for x in ag.ag_indicators] == cur, 'slc/disagree/ag-indicator-values',
+                  f'AG indicator values configured {cur}, HF holds {[x.current_status for x in hf.ag_indicators]}')
+            sv = [set(v) for _n, v, _c in cfg['ag_indicators']]
+            hsv = [x.supported_values for x in hf.ag_indicators]
+            agree(hsv == sv, 'slc/disagree/ag-indicator-supported-values',
+                  f'supported values announced in +CIND=? are {sv}, HF recorded {hsv} '
+                  f'(index fields {[x.index for x in hf.ag_indicators]})')
+        exp_ind = ([i for i in cfg['ag_hf_indicators'] if i in cfg['hf_indicators']] if both('HF_IND') else [])
+        ag_ind = sorted(int(i) for i in ag.hf_indicators)
+        hf_enabled = sorted(int(i) for i, st in hf.hf_indicators.items() if st.enabled)
+        agree(ag_ind == sorted(exp_ind) and hf_enabled == sorted(exp_ind), 'slc/disagree/hf-indicator-set',
+              f'HF indicators in force: expected {sorted(exp_ind)}, AG holds {ag_ind}, HF holds enabled {hf_enabled}')
+        if both('HF_IND'):
+            hf_sup = sorted(int(i) for i, st in hf.hf_indicators.items() if st.supported)
+            agree(hf_sup == sorted(exp_ind), 'slc/disagree/hf-indicator-supported',
+                  f'HF indicators the AG supports among the HF ones: expected {sorted(exp_ind)}, HF marked {hf_sup}')
+        if both('CODEC'):
+            agree([int(c) for c in ag.supported_audio_codecs] == cfg['hf_codecs'], 'slc/disagree/codec-list',
+                  f'HF codecs {cfg["hf_codecs"]}, AG learnt {[int(c) for c in ag.supported_audio_codecs]}')
+        else:
+            agree([int(c) for c in ag.supported_audio_codecs] == [], 'slc/disagree/codec-list/not-negotiated',
+                  f'no codec negotiation, yet the AG holds HF codecs {[int(c) for c in ag.supported_audio_codecs]}')
+        exp_chld = cfg['chld'] if both('THREE_WAY') else []
+        agree([o.value for o in hf.supported_ag_call_hold_operations] == exp_chld, 'slc/disagree/call-hold',
+              f'call hold operations: expected {exp_chld}, HF learnt {[o.value for o in hf.supported_ag_call_hold_operations]}')
+        r.ev('ag_slc_complete_emitted_%s' % ('once' if len(slc_events) == 1 else 'never' if not slc_events else 'repeatedly'))
+    # one final result code per command line on the AG's DLC
+    for lines, rsps in mon.groups():
+        n = sum(1 for t in rsps if is_final(t))
+        r.ev('at_lines_checked', len(lines))
+        r.ev('oracle_evals')
+        if n != len(lines):
+            cmd = lines[0].split('=')[0].split('?')[0] if lines else '(none)'
+            r.bad(f'at/final-codes/{"none" if n == 0 else "multiple" if n > len(lines) else "too-few"}/slc/{cmd}',
+                  f'AG answered {lines} with {rsps}; {detail}')
+    for where, e in rg.exceptions:
+        r.bad('slc/exception-in-stack', f'{where}: {e}; {detail}')
+    wire_and_counters(r, rg, [(cd, sd)], 'after SLC')
+    r.sig('slc', repr(cfg))
+    r.sched.add(rg.schedule_signature)
+    r.evals()
+    r.sample = {'kind': 'slc', 'cfg': cfg, 'link': info, 'outcome': outcome[:80],
+                'at': [(g[0], g[1]) for g in mon.groups()][:4]}
+
+
+# =============================================================================
+# kind 'agraw': AT lines written by hand on the peer DLC
+# =============================================================================
+# (command stem, nominal parameter lists). Everything HfProtocol can emit comes first.
+AT_SET_COMMANDS = [
+    ('AT+BRSF', [['0'], ['4095'], ['927']]),
+    ('AT+BAC', [['1'], ['1', '2'], ['1', '2', '3']]),
+    ('AT+CMER', [['3', '', '', '1'], ['3', '0', '0', '1'], ['3', '0', '0', '0'], ['0', '0', '0', '0'], ['3', '0', '0', '2']]),
+    ('AT+BIND', [['1'], ['1', '2'], ['2']]),
+    ('AT+BCS', [['1'], ['2']]),
+    ('AT+CHLD', [['0'], ['1'], ['2'], ['3'], ['4'], ['11'], ['21'], ['5']]),
+    ('AT+BVRA', [['0'], ['1']]),
+    ('AT+CMEE', [['1'], ['0']]),
+    ('AT+CCWA', [['1'], ['0']]),
+    ('AT+CLIP', [['1'], ['0']]),
+    ('AT+BIEV', [['1', '1'], ['2', '100'], ['7', '1']]),
+    ('AT+BIA', [['1', '1', '0'], ['0'], ['1', '1', '1', '1', '1', '1', '1']]),
+    ('AT+VGS', [['7'], ['15']]),
+    ('AT+VGM', [['0'], ['9']]),
+    ('AT+NREC', [['0']]),
+    ('AT+VTS', [['1']]),
+    ('AT+COPS', [['3', '0']]),
+    ('AT+BINP', [['1']]),
+]
+AT_PLAIN_COMMANDS = ['AT+CIND=?', 'AT+CIND?', 'AT+CHLD=?', 'AT+BIND=?', 'AT+BIND?', 'AT+BCC', 'ATA', 'AT+CHUP', 'AT+CLCC',
+                     'ATD123;', 'ATD>1;', 'AT+BLDN', 'AT+CNUM', 'AT+COPS?', 'AT+BTRH?', 'AT+BRSF?', 'AT+BRSF=?', 'AT+VGS?',
+                     'AT+CMER?', 'AT+CMER=?']
+UNPARSEABLE = ['AT', 'at+chup', 'AT+CMER=3,(0', 'ATE0', 'AT+VGS=1"5"', '\n']
+
+
+def at_pool():
+    """[(line, command stem, variant)] — deterministic."""
+    pool = []
+    for stem, plists in AT_SET_COMMANDS:
+        for k, pl in enumerate(plists):
+            pool.append((f'{stem}={",".join(pl)}', stem, 'nominal'))
+            if k == 0:
+                pool.append((f'{stem}={",".join(pl + ["0"])}', stem, 'one-more'))
+                pool.append((f'{stem}={",".join(pl[:-1])}', stem, 'one-fewer'))
+                pool.append((f'{stem}', stem, 'no-parameters'))
+                for i in range(len(pl)):
+                    if pl[i] != '':
+                        q = list(pl)
+                        q[i] = ''
+                        pool.append((f'{stem}={",".join(q)}', stem, 'empty-parameter'))
+    for line in AT_PLAIN_COMMANDS:
+        stem = line.split('=')[0].split('?')[0] if line.startswith('AT+') else line[:3]
+        pool.append((line, stem, 'nominal'))
+        if line in ('AT+BCC', 'AT+CHUP', 'AT+CLCC', 'AT+BLDN', 'AT+CNUM'):
+            pool.append((line + '=1', stem, 'one-more'))
+    return pool
+
+
+def split_results(buf: bytearray):
+    out = []
+    while True:
+        h = buf.find(b'\r\n')
+        if h < 0:
+            return out
+        t = buf.find(b'\r\n', h + 2)
+        if t < 0:
+            return out
+        out.append(bytes(buf[h + 2:t]).decode('utf-8', 'replace'))
+        del buf[:t + 2]
+
+
+async def agraw(case, r: R):
+    from bumble import hfp
+    rng = random.Random(case['seed'] ^ 0xA6)
+    cfg = gen_hfp(rng, rng.randrange(64) | (0 if rng.random() < 0.3 else 0x2A))     # AG bits mostly on
+    cfg['ag_indicators'] = cfg['ag_indicators'] or [('call', [0, 1], 0)]
+    rg, s, cd, sd, info = await hfp_link(case, rng, r)
+    _hf_conf, ag_conf = build_hfp_configs(cfg)
+    raw_on_client = rng.random() < 0.6
+    raw, agd = (cd, sd) if raw_on_client else (sd, cd)
+    ag = hfp.AgProtocol(agd, ag_conf)
+    if rng.random() < 0.3:
+        ag.calls.append(hfp.CallInfo(index=1, direction=hfp.CallInfoDirection(0), status=hfp.CallInfoStatus(0),
+                                     mode=hfp.CallInfoMode(0), multi_party=hfp.CallInfoMultiParty(0), number='123'))
+    rx = bytearray()
+    raw.sink = rx.extend
+    pool = at_pool()
+    n = 24
+    start = (case['idx'] * n) % len(pool)
+    script = [pool[(start + i) % len(pool)] for i in range(n)]
+    warm = rng.random() < 0.5
+    if warm:   # a nominal SLC first, so that handlers run in their expected state
+        script = [(l, l.split('=')[0].split('?')[0], 'nominal') for l in
+                  ('AT+BRSF=927', 'AT+CIND=?', 'AT+CIND?', 'AT+CMER=3,0,0,1')] + script
+    rng.shuffle(script) if not warm and rng.random() < 0.5 else None
+    transcript = []
+
+    async def send(line):
+        del rx[:]
+        nexc = len(rg.exceptions)
+        raw.write(line.encode() + b'\r')
+        await rg.quiesce()
+        results = split_results(rx)
+        excs = [e.split(':')[0] for _w, e in rg.exceptions[nexc:]]
+        return results, excs
+
+    starved = False
+    for line, stem, variant in script:
+        if raw.tx_buffer:
+            starved = True
+            r.ev('agraw_raw_peer_out_of_credits')
+            break
+        results, excs = await send(line)
+        if raw.tx_buffer:
+            # the line never left the raw peer: the AG stopped granting credits (its sink raised on an
+            # earlier line before the DLC accounted for the frame); nothing can be said about this line
+            starved = True
+            r.ev('agraw_raw_peer_out_of_credits')
+            break
+        finals = [t for t in results if is_final(t)]
+        transcript.append((line, results))
+        r.ev('at_lines_checked')
+        r.ev(f'at_variant_{variant}')
+        r.ev('oracle_evals')
+        r.add_extra_list('at_commands_exercised', f'{stem}/{variant}')
+        st = stem.replace('AT+', '').lower()
+        if len(finals) == 0:
+            r.bad(f'at/final-codes/none/{"handler-raised-" + excs[0] if excs else "no-exception"}',
+                  f'AG answered {line!r} ({variant}) with {results} (exceptions escaping the stack: {excs}); AG cfg={cfg}')
+        elif len(finals) > 1:
+            r.bad(f'at/final-codes/multiple/{st}', f'AG answered {line!r} with {results}; AG cfg={cfg}')
+        elif results and not is_final(results[-1]):
+            r.bad(f'at/final-codes/not-last/{st}', f'AG answered {line!r} with {results}')
+        elif excs:
+            r.ev('ag_handler_raised_after_its_final_code')
+            r.add_extra_list('ag_handlers_raising_after_final_code', f'{line} -> {excs[0]}')
+    # pipelined: several lines in one write must give as many final codes, in order
+    if not starved and not raw.tx_buffer:
+        batch = ['AT+CHUP', 'AT+CLCC', 'ATA', 'AT+VGS=3'][:rng.randint(2, 4)]
+        del rx[:]
+        raw.write(''.join(l + '\r' for l in batch).encode())
+        await rg.quiesce()
+        results = split_results(rx)
+        r.ev('at_lines_checked', len(batch))
+        r.ev('oracle_evals')
+        if sum(1 for t in results if is_final(t)) != len(batch):
+            r.bad('at/final-codes/pipelined', f'{batch} in one write answered with {results}')
+    # a line that is no AT command, then a plain command: the AG must still answer the latter
+    if not starved and not raw.tx_buffer:
+        junk = UNPARSEABLE[case['idx'] % len(UNPARSEABLE)]
+        jr, _ = await send(junk)
+        pr, excs = await send('AT+CHUP')
+        r.ev('at_wedge_probes')
+        r.ev('at_lines_checked')
+        r.ev('oracle_evals')
+        if sum(1 for t in pr if is_final(t)) != 1:
+            r.bad('at/wedged-after-unparseable-line',
+                  f'after the line {junk!r} (answered {jr}) the AG answered AT+CHUP with {pr}; exceptions {excs}; '
+                  f'AG read_buffer={bytes(ag.read_buffer)!r}')
+        transcript.append((junk, jr))
+    r.sig('agraw', tuple(l for l, _s, _v in script), repr(cfg['ag_features']), warm)
+    r.sched.add(rg.schedule_signature)
+    r.evals()
+    r.sample = {'kind': 'agraw', 'ag_cfg': cfg, 'link': info, 'transcript': transcript[:6]}
+
+
+# =============================================================================
+# kind 'hfraw': HfProtocol against a scripted AG on a raw DLC
+# =============================================================================
+async def hfraw(case, r: R):
+    from bumble import hfp
+    rng = random.Random(case['seed'] ^ 0x4F)
+    cfg = gen_hfp(rng, rng.randrange(64))
+    cfg['chld'] = cfg['chld'] or ['1', '2']
+    cfg['ag_hf_indicators'] = cfg['ag_hf_indicators'] or [1]
+    rg, s, cd, sd, info = await hfp_link(case, rng, r)
+    hf_conf, _ = build_hfp_configs(cfg)
+    raw_on_client = rng.random() < 0.5
+    raw, hfd = (cd, sd) if raw_on_client else (sd, cd)
+    hf = hfp.HfProtocol(hfd, hf_conf)
+    exp_ag = sum(AG_BITS[n] for n in cfg['ag_features'])
+    space = rng.choice([' ', ''])
+    seen = []
+    rxb = bytearray()
+
+    def rsp(*lines):
+        raw.write(''.join(f'\r\n{l}\r\n' for l in lines).encode())
+
+    def on_data(data):
+        rxb.extend(data)
+        while (i := rxb.find(b'\r')) >= 0:
+            line = bytes(rxb[:i]).decode()
+            del rxb[:i + 1]
+            seen.append(line)
+            if line.startswith('AT+BRSF='):
+                rsp(f'+BRSF:{space}{exp_ag}', 'OK')
+            elif line == 'AT+CIND=?':
+                rsp('+CIND:' + space + ','.join(
+                    '("%s",(%s))' % (n, ','.join(map(str, v)) if rng.random() < 0.5 or len(v) != v[-1] - v[0] + 1
+                                     else f'{v[0]}-{v[-1]}') for n, v, _c in cfg['ag_indicators']), 'OK')
+            elif line == 'AT+CIND?':
+                rsp('+CIND:' + space + ','.join(str(c) for _n, _v, c in cfg['ag_indicators']), 'OK')
+            elif line == 'AT+CHLD=?':
+                rsp(f'+CHLD:{space}({",".join(cfg["chld"])})', 'OK')
+            elif line == 'AT+BIND=?':
+                rsp(f'+BIND:{space}({",".join(map(str, cfg["ag_hf_indicators"]))})', 'OK')
+            elif line == 'AT+BIND?':
+                rsp(*[f'+BIND:{space}{i},1' for i in cfg['ag_hf_indicators']], 'OK')
+            else:
+                rsp('OK')
+
+    raw.sink = on_data
+    junk = rng.choice([None, '+XAPL: (1', '+FOO: 1"x"', '+BSIR: 0'])
+    if junk:
+        raw.write(f'\r\n{junk}\r\n'.encode())
+        await rg.quiesce()
+    r.ev('slc_runs')
+    r.ev('hfraw_runs')
+    key_junk = 'none' if junk is None else 'unparseable' if junk != '+BSIR: 0' else 'valid'
+    try:
+        how, e = await vloop.vwait(guarded(hf.initiate_slc()))
+    except vloop.Hang:
+        r.bad('slc/hang/raw-ag', f'initiate_slc pending at T_v; unsolicited line before: {junk!r}')
+        return
+    ok = how == 'ok'
+    r.ev('oracle_evals')
+    if not ok:
+        r.bad(f'slc/raised/raw-ag/after-{key_junk}-unsolicited-line',
+              f'initiate_slc raised {type(e).__name__}: {e} against a scripted AG that answered {seen}; unsolicited '
+              f'line sent before the procedure: {junk!r}; HF read_buffer={bytes(hf.read_buffer)[:60]!r}; cfg={cfg}')
+    if ok:
+        names = [n for n, _v, _c in cfg['ag_indicators']]
+        r.ev('slc_agreement_checks', 3)
+        r.ev('oracle_evals', 3)
+        if hf.supported_ag_features != exp_ag:
+            r.bad('slc/disagree/ag-features/raw-ag', f'HF learnt {hf.supported_ag_features:#x}, AG sent {exp_ag:#x}')
+        if [x.indicator.value for x in hf.ag_indicators] != names or \
+                [x.current_status for x in hf.ag_indicators] != [c for _n, _v, c in cfg['ag_indicators']]:
+            r.bad('slc/disagree/ag-indicator-list/raw-ag', f'HF holds {hf.ag_indicators}, AG sent {cfg["ag_indicators"]}')
+        if [x.supported_values for x in hf.ag_indicators] != [set(v) for _n, v, _c in cfg['ag_indicators']]:
+            r.bad('slc/disagree/ag-indicator-supported-values', f'HF holds {hf.ag_indicators}, AG sent {cfg["ag_indicators"]}')
+    for where, e in rg.exceptions:
+        r.ev('hfraw_exception_in_stack')
+    r.sig('hfraw', repr(cfg), junk, space)
+    r.evals()
+    r.sample = {'kind': 'hfraw', 'cfg': cfg, 'unsolicited_before': junk, 'commands_seen': seen[:12]}
+
+
+KINDS = {'xfer': xfer, 'life': life, 'slc': slc, 'agraw': agraw, 'hfraw': hfraw}
 
 
 async def run_case(case, r: R):
